@@ -33,6 +33,30 @@ CHECKS = {
     "C20": ("TLA+ counters over the interface-level reconstruction (window set-ups, SPI transactions); row capacity measured",
             "Fills use exactly one window set-up; draw_iter uses no more set-ups than its runs split at the measured row "
             "capacity; SPI bursts use at most floor(b/usable)+1 transactions.", "7/C20"),
+    "C06": ("TLA+ spec (Wire/Controller) + TLC trace validation of the real SpiInterface over a recording SPI device",
+            "For every interface-level call the bytes seen under D/C low/high must be exactly instruction / parameters / pixel "
+            "bytes in order; the transaction count is bounded (a non-terminating loop is cut by an operation budget and rejected).", "7/C06"),
+    "C07": ("TLA+ spec (Wire strobe sampling) + TLC trace validation of the real ParallelInterface and Generic8/16BitBus over recording pins",
+            "The (D/C, data) samples at every WR rising edge must be exactly the words sent; after every successful set_value - "
+            "whatever failed before - the pins show the value (walking-one/zero alphabets distinguish every pin).", "7/C07"),
+    "C09": ("TLA+ InitVerdict over mathematical integers + TLC trace validation of real Builder::init calls",
+            "Boundary grid and seeded random (w,h,ox,oy) on framebuffers 1x1 .. 65535x65535, with and without reset pin: "
+            "verdict must equal the integer predicate and a rejected init must have performed no operation at all.", "7/C09"),
+    "C11": ("TLA+ controller model + TLC trace validation of every model's real init on every interface kind",
+            "After init the decoded controller state must be awake, on, MADCTL = encoding of the options, COLMOD matching the "
+            "colour type, inversion as chosen, no pixel written, >=120 ms after sleep-out; unsupported kinds refused before any "
+            "model command; the support matrix of the pinned tree is a constant of the specification.", "7/C11"),
+    "C12": ("fault enumeration driven from the TLA+ trace monitor: fail the k-th low-level operation of every driver call",
+            "For every k: error variant names the source of operation k with its payload, nothing is issued after it, no panic, "
+            "sleep flag unchanged; then the same object must clear and draw correctly (decoded framebuffer).", "7/C12"),
+    "C13": ("TLA+ controller model (sleep state, virtual clock) + TLC trace validation of lifecycle histories",
+            "is_sleeping() follows the last successful sleep/wake, equals the controller's state decoded from 10h/11h actually "
+            "sent, every 10h/11h is followed by >=120 ms before the call returns and two are never closer than 120 ms.", "7/C13"),
+    "C16": ("TLA+ spec + TLC trace validation of scroll calls over boundary grids",
+            "One 33h with tfa+vsa+bfa = framebuffer height, pass-through when the sum fits, no panic for any u16 pair; 37h carries "
+            "the offset big-endian.", "7/C16"),
+    "C17": ("TLA+ timeline automaton over every recorded init (reset pin log, virtual clock, first bus event)",
+            "With a pin: low, >=10 us, high, nothing on the bus before high, no 01h; without: first command is 01h exactly once.", "7/C17"),
 }
 
 NOT_APPLICABLE = []
@@ -48,7 +72,7 @@ def build():
             "evidence_file": "/verif/evidence/%s.json" % pid,
             "replay_cmd_template": "./check %s --replay {path}" % pid,
             "engine": "tla-trace",
-            "level_claimed": {"category": "model_checking", "text": text, "design_ref": "DESIGN.md section " + ref},
+            "level_claimed": {"category": "fault_enumeration" if pid == "C12" else "model_checking", "text": text, "design_ref": "DESIGN.md section " + ref},
             "level_note": TRUSTED,
             "technique": tech,
         })
